@@ -94,6 +94,7 @@ pub fn static_oracle(
 fn probe_boxed_compact() -> Result<(), Failure> {
     use crate::program::*;
     let prog = Program {
+        name_style: 0,
         defs: vec![Def {
             path: vec!["krate".into(), "BoxedCompact".into()],
             params: vec![],
@@ -124,6 +125,7 @@ fn probe_recursive_only() -> Result<(), Failure> {
         docs: vec![],
     };
     let prog = Program {
+        name_style: 0,
         defs: vec![Def {
             path: vec!["krate".into(), "Node".into()],
             params: vec![ParamDecl {
@@ -131,6 +133,8 @@ fn probe_recursive_only() -> Result<(), Failure> {
                 skipped: false,
                 config: false,
                 compactable: false,
+                bitstore: false,
+                bitorder: false,
             }],
             docs: vec![],
             body: Body::Struct(Fields::Named(vec![
